@@ -18,6 +18,19 @@ CLAIMED = {
              "Debug-build overflow semantics (panic) modelled.",
         technique="Coq proof (induction on fuel/remaining length) + model/implementation correspondence",
         design="6/C10"),
+    "C09": dict(
+        text="Coq theorems (props/C09.v) over the Gallina model of the command constructors and CommandPacket::serialize "
+             "(Vec and fixed-slice sinks with std's short-write semantics, write_bytes_le ignoring the count): an "
+             "independent layout decoder inverts serialize for every constructible command and request id "
+             "(C09_layout), byte count = cmd_len = 12 + SCD-length field, maximum_ack_len bounds every conforming "
+             "acknowledge incl. pending, exact-size slice = Vec output, constructors are Ok exactly when the true "
+             "lengths fit 16 bits (no truncation; the u16 product in WriteMemStacked::new is shown unreachable "
+             "otherwise). Tied to /repo by running the real constructors/serialize and the extracted model on the "
+             "same commands; predicate = independent Python encoder of the U3V layout.",
+        note="Trusted: Coq kernel, model/Cmd.v validated by correspondence, spec/CmdLayout.v (decoder typed from the "
+             "U3V layout), extraction cross-checked with vm_compute, driver.ml, rust/h_proto, tools/c09.py.",
+        technique="Coq proof (decoder∘encoder = id by induction over entry lists) + model/implementation correspondence",
+        design="6/C09"),
 }
 
 ALL = ["C%02d" % i for i in range(1, 21)]
